@@ -51,6 +51,7 @@ def labelP : P Label := do
   | "cbin" => do let s ← nat; let a ← nat; let t ← nat; pure (.cbIn s a t)
   | "cbout" => do let s ← nat; let a ← nat; let t ← nat; pure (.cbOut s a t)
   | "env" => pure .envMove
+  | "verdict" => do let b ← bool; let a ← nat; let p ← nat; let h ← nat; pure (.verdict b a p h)
   | "other" => pure .other
   | _ => fail
 
@@ -98,6 +99,7 @@ def handleSchedRun : Toks → Option String :=
       showMon "c03" none_ (framed c ls), showMon "c04" none_ (completeness c ls),
       showMon "c05" none_ (retries c ls), showMon "c06" none_ (limit c ls),
       showMon "c07" (knownC07 c ls iso) (iso.map (·.1)), showMon "c08" none_ (SMon.failFast c ls),
-      showMon "c02" none_ (attemptShapes c ls)])) ts
+      showMon "c02" none_ (attemptShapes c ls),
+      showMon "c01" (knownC01 ls (verdictMon ls)) (verdictMon ls)])) ts
 
 end Cuke.Driver
